@@ -117,6 +117,7 @@ fn dispatch(case: &Case) {
     match case.scenario.as_str() {
         "mem" => crate::memscn::exec(case),
         "hyb" => crate::hybscn::exec(case),
+        "c08" => crate::c08scn::exec(case),
         other => panic!("fsim: unknown scenario {other}"),
     }
 }
